@@ -123,14 +123,18 @@ def gen_summaries(ck, ff, unit, label, r_move="L5-rettmp-move", r_unbal="L1-gene
         key = "%s/%s" % (label, fn["path"])
         kinds = sorted(s.kind for s in sites)
         if nets is not None and set(nets) == {0}:
-            # the only accepted generated idiom with primitives: move a wrapped borrowed child into its RetTmp slot
-            ok = kinds == ["forget", "ptr_copy"]
+            # the only accepted generated idiom with primitives: move a wrapped borrowed child into its RetTmp slot -- the value's bits are
+            # copied into the slot and that same value is disarmed (mem::forget after the copy, or ManuallyDrop::new before it)
+            ok = kinds in (["forget", "ptr_copy"], ["manuallydrop_new", "ptr_copy"])
             if ok:
                 cpy = [s for s in sites if s.kind == "ptr_copy"][0]
-                fg = [s for s in sites if s.kind == "forget"][0]
-                src = mir.strip(body.origin_operand(cpy.term["args"][0]))
-                fo = body.origin_operand(fg.term["args"][0])
-                ok = src == fo and body.dominates(cpy.bb, fg.bb)
+                fg = [s for s in sites if s.kind != "ptr_copy"][0]
+                src = mir.peel(body.origin_operand(cpy.term["args"][0]))
+                fo = mir.peel(body.origin_operand(fg.term["args"][0]), through_manuallydrop=False)
+                if fg.kind == "forget":
+                    ok = src == fo and body.dominates(cpy.bb, fg.bb)
+                else:
+                    ok = src == fo and body.dominates(fg.bb, cpy.bb)
             ck.ob(r_move, key, ok, "%s: generated code uses ownership primitives %s outside the RetTmp move idiom (copy value into slot, forget the same value)" % (fn["path"], kinds),
                   sample={"fn": fn["path"], "sites": kinds})
         elif nets is not None and set(nets) == {-1} and kinds == ["ptr_write"]:
@@ -159,12 +163,14 @@ def run(tier):
     if ck.require(io is not None, "Opaquable::into_opaque"):
         fn, body, sites, nets, loops = io
         kinds = sorted(s.kind for s in sites)
-        ok = kinds == ["manuallydrop_new", "ptr_read"] and all(body.on_all_paths_to_return(s.bb) for s in sites)
+        # the bits of `self` are read out exactly once and `self` itself is disarmed exactly once (ManuallyDrop::new or mem::forget), on every path
+        ok = kinds in (["manuallydrop_new", "ptr_read"], ["forget", "ptr_read"]) and all(body.on_all_paths_to_return(s.bb) for s in sites)
         if ok:
             rd = [s for s in sites if s.kind == "ptr_read"][0]
-            src = body.origin_operand(rd.term["args"][0])
-            ok = mir.contains(src, lambda o: o[0] == "call" and o[1] == "std::mem::ManuallyDrop::<T>::new" and o[2][0] == ("arg", 1))
-            ok = ok and body.origin_local(0)[0] == "call" and body.origin_local(0)[1] == "std::ptr::read"
+            dis = [s for s in sites if s.kind != "ptr_read"][0]
+            ok = mir.peel(body.origin_operand(rd.term["args"][0])) == ("arg", 1) and body.origin_operand(dis.term["args"][0]) == ("arg", 1)
+            ro = body.origin_local(0)
+            ok = ok and ro[0] == "call" and len(ro) > 3 and ro[3] == rd.bb
         ck.ob("L5-into-opaque-moves-bits", "cglue/into_opaque", ok, "into_opaque must wrap `self` in ManuallyDrop and return ptr::read of exactly that value on every path")
     ii = summ.get("<cglue::boxed::CBox<'_, T> as cglue::trait_group::IntoInner>::into_inner")
     if ck.require(ii is not None, "IntoInner for CBox"):
